@@ -146,7 +146,7 @@ def compare_with_spec(funcs, lean_results, value):
             continue
         if e.dtype == bool and 'data' in res:
             # the specification evaluator computes Add / Sum of booleans numerically; a boolean array denotes the truth values
-            res = dict(res, data=['0' if k == '0' else '1' for k in res['data']])
+            res = dict(res, data=[k if not re.fullmatch(r'-?\d+(/\d+)?', k) else '0' if k == '0' else '1' for k in res['data']])
         m = X.compare_result(res, v)
         if m not in ('exact', 'close'):
             bad.append('%s[%d]' % (m, i))
@@ -934,14 +934,6 @@ def describe_funcs(funcs, args):
 
 # ======================================================================================= V-opt: the numpy-optimisation pass
 
-def opt_pass(e):
-    """the whole-tree pass that compile(_optimize=True) applies (property name differs between revisions)"""
-    for name in ('_optimized_for_numpy1', 'optimized_for_numpy'):
-        if hasattr(type(e), name):
-            return getattr(e, name) if name == '_optimized_for_numpy1' else None
-    return None
-
-
 def apply_opt(e):
     if hasattr(type(e), '_optimized_for_numpy1'):
         return e._optimized_for_numpy1
@@ -1040,6 +1032,10 @@ class CoreGen:
         self.nested_used = {}
         self.loop_parent = {}
         self.tag_of = {}
+        self.leaf_info = {}
+        self.scatter_info = {}
+        self.transp_info = {}
+        self.loop_len = {}
 
     def gen(self, shape, loops, depth):
         """-> node = dict(e=real tree, j=E json, deps=frozenset of loop names, kind=...)"""
@@ -1055,9 +1051,10 @@ class CoreGen:
             dep = [l for l in loops if rng.random() < .7]
             e = self.b.arg(*shape, *[n for _, n in dep])
             self.leaf_name[k] = e.name
+            self.leaf_info[k] = (e.name, [id(i) for i, _ in dep], [id(i) for i, _ in loops], shape)
             for idx, _ in reversed(dep):
                 e = ev.Take(e, idx)
-            node = dict(e=e, j=['leaf', k, 1], deps=frozenset(id(i) for i, _ in dep), kind='leaf', ch=[])
+            node = dict(e=e, j=['leaf', k, _prod(shape)], deps=frozenset(id(i) for i, _ in dep), kind='leaf', ch=[])
         elif kind == 'add':
             a = self.gen(shape, loops, depth-1); b = self.gen(shape, loops, depth-1)
             if a is b:
@@ -1077,11 +1074,13 @@ class CoreGen:
                 table = numpy.array([rng.randrange(n) for _ in range(m)])
                 dofmap = ev.Constant(types.arraydata(table))
             # equal index maps are equal nodes in nutils: same tag
-            t = self.tag_of.setdefault(('scatter', table.shape, table.tobytes(), id(dep[0][0]) if dep else None, n), None)
+            tkey = ('scatter', table.shape, table.tobytes(), id(dep[0][0]) if dep else None, shape)
+            t = self.tag_of.get(tkey)
             if t is None:
-                t = self.tag_of[('scatter', table.shape, table.tobytes(), id(dep[0][0]) if dep else None, n)] = next(self.ntag)
+                t = self.tag_of[tkey] = next(self.ntag)
             self.scatter_const[t] = 'c' + types.nutils_hash(table).hex()
-            node = dict(e=Infl(f['e'], dofmap, n), j=['scatter', t, 1, f['j']], deps=f['deps'] | frozenset(id(i) for i, _ in dep), kind='scatter', ch=[f])
+            self.scatter_info.setdefault(t, (table, id(dep[0][0]) if dep else None, shape[:-1] + (m,), shape, []))[4].append([id(i) for i, _ in loops])
+            node = dict(e=Infl(f['e'], dofmap, n), j=['scatter', t, _prod(shape), f['j']], deps=f['deps'] | frozenset(id(i) for i, _ in dep), kind='scatter', ch=[f])
         elif kind == 'transp':
             axes = list(range(len(shape)))
             while axes == list(range(len(shape))):
@@ -1090,15 +1089,17 @@ class CoreGen:
             for i, a in enumerate(axes):
                 src[a] = shape[i]
             f = self.gen(tuple(src), loops, depth-1)
-            t = self.tag_of.get(('transp', tuple(axes)))
+            t = self.tag_of.get(('transp', tuple(axes), tuple(src)))
             if t is None:
-                t = self.tag_of[('transp', tuple(axes))] = next(self.ntag)
+                t = self.tag_of[('transp', tuple(axes), tuple(src))] = next(self.ntag)
+            self.transp_info[t] = (tuple(axes), tuple(src), shape)
             self.transp_axes[t] = tuple(axes)
             self.transp_inv[t] = tuple(int(i) for i in numpy.argsort(axes))
             node = dict(e=Tr(f['e'], *axes), j=['transp', t, f['j']], deps=f['deps'], kind='transp', ch=[f])
         else:
             n = rng.choice([1, 2, 3])
             idx = self.b.loop(n)
+            self.loop_len[id(idx)] = n
             if loops:
                 self.nested_used[id(loops[0][0])] = True     # at most one loop nested in a loop body
                 self.loop_parent[id(idx)] = id(loops[-1][0])
@@ -1108,10 +1109,11 @@ class CoreGen:
             k = next(self.nleaf)
             la = self.b.arg(*shape, *[m for _, m in loops2])
             self.leaf_name[k] = la.name
+            self.leaf_info[k] = (la.name, [id(i2) for i2, _ in loops2], [id(i2) for i2, _ in loops2], shape)
             le = la
             for i2, _ in reversed(loops2):
                 le = ev.Take(le, i2)
-            dl = dict(e=le, j=['leaf', k, 1], deps=frozenset(id(i2) for i2, _ in loops2), kind='leaf', ch=[], loops=[id(i2) for i2, _ in loops2], hasloop=frozenset())
+            dl = dict(e=le, j=['leaf', k, _prod(shape)], deps=frozenset(id(i2) for i2, _ in loops2), kind='leaf', ch=[], loops=[id(i2) for i2, _ in loops2], hasloop=frozenset())
             body = dict(e=Add(body['e'], dl['e']), j=self.add_json(body['j'], dl['j']), deps=body['deps'] | dl['deps'], kind='add', ch=[body, dl],
                         loops=[id(i2) for i2, _ in loops2], hasloop=body['hasloop'])
             node = dict(e=ev.loop_sum(body['e'], idx), j=['loopsum', n, body['j']], deps=body['deps'] - {id(idx)}, kind='loopsum', ch=[body], idx=id(idx))
@@ -1120,6 +1122,42 @@ class CoreGen:
         node['hasloop'] = frozenset().union(*[ch['hasloop'] for ch in node['ch']]) | (frozenset([node['idx']]) if node['kind'] == 'loopsum' else frozenset())
         self.pool.append((shape, tuple(i for i, _ in loops), node))
         return node
+
+    def exec_request(self, root, shared, early):
+        """request for the C02 driver: run the script compileCore emits on the concrete leaves / index maps of this program
+        (values scaled by 4: integers)"""
+        def envs(ctx):
+            return list(itertools.product(*[range(self.loop_len[l]) for l in ctx]))   # outer -> inner
+        def key(vals):
+            return ','.join(str(v) for v in reversed(vals))                            # innermost first
+        rho, M, P, Q = [], [], [], []
+        for k, (name, dep, ctx, shape) in self.leaf_info.items():
+            arr = numpy.asarray(self.b.args[name])
+            for vals in envs(ctx):
+                ix = tuple(vals[ctx.index(l)] for l in dep)
+                v = arr[(Ellipsis,) + ix] if ix else arr
+                rho.append([k, key(vals), [int(round(4 * float(x))) for x in numpy.asarray(v).reshape(-1)]])
+        for t, (table, dep, fshape, oshape, ctxs) in self.scatter_info.items():
+            done = set()
+            for ctx in ctxs:
+                for vals in envs(ctx):
+                    if key(vals) in done: continue
+                    done.add(key(vals))
+                    dofmap = table[:, vals[ctx.index(dep)]] if dep is not None else table
+                    cells = []
+                    for c in itertools.product(*[range(n) for n in fshape]):
+                        tgt = c[:-1] + (int(dofmap[c[-1]]),)
+                        cells.append(int(numpy.ravel_multi_index(tgt, oshape)) if oshape else 0)
+                    M.append([t, key(vals), cells])
+        for t, (axes, src, res) in self.transp_info.items():
+            p = []
+            for c in itertools.product(*[range(n) for n in src]):
+                r = tuple(c[a] for a in axes)
+                p.append(int(numpy.ravel_multi_index(r, res)))
+            q = [0] * len(p)
+            for j, r in enumerate(p): q[r] = j
+            P.append([t, p]); Q.append([t, q])
+        return json.dumps(dict(exec=root['j'], shared=shared, early=early, rho=rho, M=M, P=P, Q=Q), separators=(',', ':'))
 
     @staticmethod
     def add_json(x, y):
@@ -1196,6 +1234,12 @@ class CoreGen:
             self_(n, ('start', innermost(n)))
         comp(root)
         return shared, early
+
+
+def _prod(shape):
+    n = 1
+    for k in shape: n *= int(k)
+    return n
 
 
 def _common_prefix(paths):
@@ -1502,12 +1546,12 @@ def _run(c, quick, counts, hits, broken):
         for n in names:
             funcs, args = cat[n]
             programs.append(Program('%s:%s' % (T.__name__, n), funcs, args, second_args(args)))
-    nrandom = 30 if quick else 700
+    nrandom = 30 if quick else 500
     for name, funcs, args, ghits in random_programs(rng, nrandom, 3 if quick else 5):
         for k, v in ghits.items(): counts['gen:' + k] += v
         programs.append(Program(name, funcs, args, second_args(args)))
     core_cases = []
-    for k in range(30 if quick else 400):
+    for k in range(30 if quick else 300):
         g = CoreGen(rng)
         shape = tuple(rng.choice([1, 2, 3]) for _ in range(rng.choice([1, 2, 2, 3])))
         root = g.gen(shape, [], rng.choice([1, 2, 3, 4]))
@@ -1517,7 +1561,7 @@ def _run(c, quick, counts, hits, broken):
     c.log('%d programs' % len(programs))
 
     # ---- 2. all real runs
-    budget_parallel = [6 if quick else 120]
+    budget_parallel = [6 if quick else 60]
     runs = []          # (program index, cfg, kind, val, scripts, nontrivial)
     scripts_seen = {}
     t0 = time.time()
@@ -1530,7 +1574,7 @@ def _run(c, quick, counts, hits, broken):
             runs.append((pi, cfg, kind, val, scripts, nontrivial))
             for s in scripts:
                 script_features(s, hits.n)
-            if kind == 'ok' and scripts and len(scripts_seen) < (300 if quick else 6000) and scripts[-1] not in scripts_seen:
+            if kind == 'ok' and scripts and len(scripts_seen) < (300 if quick else 3000) and scripts[-1] not in scripts_seen:
                 scripts_seen[scripts[-1]] = (p, cfg)
     c.log('%d real compile+run: %.1fs' % (len(runs), time.time() - t0))
 
@@ -1556,7 +1600,7 @@ def _run(c, quick, counts, hits, broken):
     rng.shuffle(order)
     for pi in order:
         p = programs[pi]
-        if nprog_pairs >= (30 if quick else 900): break
+        if nprog_pairs >= (30 if quick else 500): break
         _, flat = flatten(p.funcs)
         for e in flat[:2]:
             for simp in (False, True):
@@ -1597,10 +1641,11 @@ def _run(c, quick, counts, hits, broken):
                 hits.n['rerun:blocks-skipped'] += 1
 
     # ---- 5. M-core: real scripts of sub-language programs
-    core_reqs, core_real = [], []
+    core_reqs, core_real, exec_reqs = [], [], []
     for g, root in core_cases:
         shared, early = g.gates(root)
         core_reqs.append(json.dumps(dict(core=root['j'], shared=shared, early=early), separators=(',', ':')))
+        exec_reqs.append(g.exec_request(root, shared, early))
         kind, val, scripts, gl = run_config(root['e'], [g.b.args], BASE)
         tr = None
         if kind == 'ok':
@@ -1630,14 +1675,14 @@ def _run(c, quick, counts, hits, broken):
         try: box['expr'] = model_parallel(c, spec_reqs + vopt_reqs, 'Expr', nproc=4)
         except BaseException as ex: box['expr_err'] = ex
     def c02_job():
-        try: box['c02'] = model_parallel(c, script_reqs + flat_reqs + block_reqs + core_reqs, 'C02', nproc=2)
+        try: box['c02'] = model_parallel(c, script_reqs + flat_reqs + block_reqs + core_reqs + exec_reqs, 'C02', nproc=2)
         except BaseException as ex: box['c02_err'] = ex
     th = [threading.Thread(target=expr_job), threading.Thread(target=c02_job)]
     for t in th: t.start()
     for t in th: t.join()
     for k in ('expr_err', 'c02_err'):
         if k in box: raise box[k]
-    c.log('Lean: %d specification evaluations + %d optimisation pairs (driver Expr), %d scripts + %d loop trees + %d block ids + %d core programs (driver C02): %.1fs' % (
+    c.log('Lean: %d specification evaluations + %d optimisation pairs (driver Expr), %d scripts + %d loop trees + %d block ids + %d core programs (traces and executions) (driver C02): %.1fs' % (
         len(spec_reqs), len(vopt_index), len(script_reqs), len(flat_reqs), len(blocksample), len(core_reqs), time.time() - t0))
     expr_ans, c02_ans = box['expr'], box['c02']
     lean = [None] * len(items)
@@ -1649,7 +1694,8 @@ def _run(c, quick, counts, hits, broken):
     script_ans = c02_ans[:len(script_reqs)]
     flat_ans = c02_ans[len(script_reqs):len(script_reqs) + len(flat_reqs)]
     block_ans = c02_ans[len(script_reqs) + len(flat_reqs):len(script_reqs) + len(flat_reqs) + len(block_reqs)]
-    core_ans = c02_ans[len(script_reqs) + len(flat_reqs) + len(block_reqs):]
+    core_ans = c02_ans[len(script_reqs) + len(flat_reqs) + len(block_reqs):len(script_reqs) + len(flat_reqs) + len(block_reqs) + len(core_reqs)]
+    exec_ans = c02_ans[len(script_reqs) + len(flat_reqs) + len(block_reqs) + len(core_reqs):]
 
     # =============================================================== phase C: verdicts
     # ---- M-eval
@@ -1789,6 +1835,28 @@ def _run(c, quick, counts, hits, broken):
                 c.broken_no_input('corr:compileCore', 'the real script accumulates differently from the verified model compileCore (gate / mode / zero-fill placement)',
                                   dict(expr=root['j'], model=repr(mt), script_trace=repr(tr[1]), script=scripts[-1], pickled=pack(root['e'], [g.b.args])))
     c.obligation('corr:compileCore', nok == len(core_cases), 'correspondence', '%d of %d sub-language programs: accumulator traces of the real script equal those of compileCore' % (nok, len(core_cases)))
+    # the statement semantics of the model (execL) and its denotation (eval) against the real values
+    nex = 0
+    for (g, root), a, (kind, val, scripts, tr) in zip(core_cases, exec_ans, core_real):
+        if a.startswith('bad-request'):
+            raise Infra('C02 driver rejected an exec request: ' + a[:200])
+        if kind != 'ok':
+            continue
+        a = json.loads(a)
+        real = [int(round(4 * float(x))) for x in numpy.asarray(val[0]).reshape(-1)]
+        if a['wf'] and a['run'] == real and a['eval'] == real:
+            nex += 1
+        elif a['wf'] and a['run'] == a['eval']:
+            # model script and model denotation agree with each other but not with the real function: look at the oracle
+            res = lean_eval(c, [([root['e']], g.b.args)])[0] if nex >= 0 else None
+            if res is not None and spec_status(res) == 'ok' and compare_with_spec(root['e'], res, val[0]):
+                c.failing_input('compile-wrong-value:base:' + shrink.skeleton(root['e']), 'compiled sub-language program differs from its denotation', dict(expr=X.describe(root['e'], g.b.args), pickled=pack(root['e'], [g.b.args]), script=scripts[-1]))
+            else:
+                c.broken_no_input('corr:compileCore-exec', 'the Lean model of the sub-language (eval) disagrees with the real value, the specification evaluator does not', dict(expr=root['j'], model=a, real=real))
+        else:
+            c.broken_no_input('corr:compileCore-exec', 'executing the script of compileCore in the Lean statement semantics does not give the model denotation / the instance is not well-formed', dict(expr=root['j'], model=a, real=real))
+    c.obligation('corr:compileCore-exec', nex == sum(1 for r in core_real if r[0] == 'ok') and nex > 0, 'correspondence',
+                 '%d sub-language programs: execL(compileCore e) = eval e = value of the real compiled function (integers, exact)' % nex)
 
     # ---- evidence
     table = {k: hits.n.get(k, 0) for k in EXPECTED_BRANCHES}
